@@ -214,5 +214,10 @@ def _multiplier_static(ck):
             s = mk(o)
             shapes = {n: tuple(getattr(s._integrator, n).shape) for n in vars(s._integrator) if n.startswith("_coef") or n.endswith("exp_term")}
             ok = all(sh[0] == 1 for sh in shapes.values())
+            def _same_for_all_channels(m, s=s, shapes=shapes):
+                arrs = {n: np.asarray(getattr(s._integrator, n)) for n in shapes}
+                differs = [n for n, a in arrs.items() if a.shape[0] > 1 and not all(np.array_equal(a[0], a[c]) for c in range(1, a.shape[0]))]
+                return {"reproduced": bool(differs), "detail": f"coefficient array shapes {shapes}; arrays that differ between channels: {differs}"}
+
             ck.add(f"step/static/{nm}/order{o}/channel-independent-multiplier", bool(ok), [], family="3D steppers: one linear multiplier for all channels (static)",
-                   replay=lambda m, shapes=shapes: {"reproduced": True, "detail": f"coefficient array shapes {shapes}"})
+                   replay=_same_for_all_channels, meta={"structural": True})
